@@ -62,6 +62,21 @@ def _hooks():
             for a in e.args:
                 sa.evaluate(a, env)
             return arr("m")
+        if n in ("zeros", "ones", "empty", "full") and not e.args and kwarg(e, "shape") is not None:
+            # zeros(shape=(a, b), ...) is zeros((a, b), ...)
+            pos = ast.Call(func=e.func, args=[kwarg(e, "shape")], keywords=[k for k in e.keywords if k.arg != "shape"])
+            return sa.evaluate(ast.copy_location(pos, e), env)
+        if n == "repeat" and e.args and not any(isinstance(a, ast.Starred) for a in e.args):
+            # repeat(a[:, newaxis], n, axis=1): the unit axis becomes an axis of the kind n counts
+            reps = e.args[1] if len(e.args) > 1 else kwarg(e, "repeats")
+            axis = e.args[2] if len(e.args) > 2 else kwarg(e, "axis")
+            v = single(sa.evaluate(e.args[0], env))
+            r = single(sa.evaluate(reps, env)) if reps is not None else None
+            ax = const_value(axis, None)
+            if v and v[0] == "arr" and isinstance(ax, int) and not isinstance(ax, bool) and -len(v[1]) <= ax < len(v[1]):
+                kinds = list(v[1])
+                kinds[ax] = r[1] if r and r[0] == "dim" and kinds[ax] == "1" else "?"
+                return arr(*kinds)
         return None
 
     return extra_call
@@ -139,72 +154,386 @@ def _quotient_shape(e: ast.AST):
     return None, None
 
 
+# ---------------------------------------------------------------------------
+# 16.2: the quotients are decided on their RESOLVED form: locals unfolded (gv.dataflow.SymValues), loop variables bound
+# by ``enumerate`` replaced by the element they stand for, ``seq[a:][k]`` / ``X.T[k]`` / ``[x, *s][k + 1]`` /
+# ``[e(j) for j in ...][k]`` reduced to the element, and (second stage) an output replaced by the point at which it is
+# evaluated: ``self.f_pointer(p, **kwargs)`` and ``<parallel execution>.execute(tasks)[i]`` are both ``F(p)``.
+
+_MATRICES = {"input_perturbations"}  # the (C x P) array of the generator contract (rule 16.1-perturbations)
+
+
+def _idx(e: ast.AST):
+    """(name | None, offset) of the integer index expression ``name + offset`` (``1 + k``, ``k + 1``, ``k``, ``0``)."""
+    if isinstance(e, ast.Constant) and isinstance(e.value, int) and not isinstance(e.value, bool):
+        return (None, e.value)
+    if isinstance(e, ast.Name):
+        return (e.id, 0)
+    if isinstance(e, ast.BinOp) and isinstance(e.op, (ast.Add, ast.Sub)):
+        a, b = _idx(e.left), _idx(e.right)
+        if a is None or b is None:
+            return None
+        if isinstance(e.op, ast.Add):
+            return None if a[0] and b[0] else (a[0] or b[0], a[1] + b[1])
+        return None if b[0] else (a[0], a[1] - b[1])
+    return None
+
+
+def _idx_ast(ix) -> ast.AST:
+    name, c = ix
+    if name is None:
+        return ast.Constant(value=c)
+    if c == 0:
+        return ast.Name(id=name, ctx=ast.Load())
+    return ast.BinOp(left=ast.Name(id=name, ctx=ast.Load()), op=ast.Add() if c > 0 else ast.Sub(), right=ast.Constant(value=abs(c)))
+
+
+def _subst(e: ast.AST, mapping: dict) -> ast.AST:
+    import copy
+
+    class R(ast.NodeTransformer):
+        def visit_Name(self, n):  # noqa: N802
+            if isinstance(n.ctx, ast.Load) and n.id in mapping:
+                return copy.deepcopy(mapping[n.id])
+            return n
+
+    return R().visit(copy.deepcopy(e))
+
+
+def _is_call(e: ast.AST, name: str, nargs: int = 1) -> bool:
+    return isinstance(e, ast.Call) and last_attr(e) == name and len(e.args) == nargs and not e.keywords and not any(isinstance(a, ast.Starred) for a in e.args)
+
+
+class _Resolver(ast.NodeTransformer):
+    """Reduces ``<sequence expression>[<index>]`` to the element; with ``evaluations`` also outputs to ``F(point)``."""
+
+    def __init__(self, evaluations: bool):
+        self.evaluations = evaluations
+
+    def sub(self, seq: ast.AST, ix) -> ast.AST:
+        r = self.elem(seq, ix)
+        return r if r is not None else ast.Subscript(value=seq, slice=_idx_ast(ix), ctx=ast.Load())
+
+    def _binding(self, gen: ast.comprehension, ix):
+        """Values of the names bound by ``for <target> in <iter>`` at iteration ``ix``."""
+        if gen.ifs or gen.is_async:
+            return None
+        t, it = gen.target, gen.iter
+        if isinstance(t, ast.Name) and _is_call(it, "range") and isinstance(it.func, ast.Name):
+            return {t.id: _idx_ast(ix)}
+        if isinstance(t, ast.Tuple) and len(t.elts) == 2 and all(isinstance(x, ast.Name) for x in t.elts) and _is_call(it, "enumerate") and isinstance(it.func, ast.Name):
+            return {t.elts[0].id: _idx_ast(ix), t.elts[1].id: self.sub(it.args[0], ix)}
+        if isinstance(t, ast.Tuple) and all(isinstance(x, ast.Name) for x in t.elts) and _is_call(it, "zip", len(t.elts)) and isinstance(it.func, ast.Name):
+            return {x.id: self.sub(a, ix) for x, a in zip(t.elts, it.args)}
+        if isinstance(t, ast.Name) and not (isinstance(it, ast.Call) and dotted(it.func) in ("range", "enumerate", "zip", "reversed", "sorted")):
+            return {t.id: self.sub(it, ix)}
+        return None
+
+    def elem(self, seq: ast.AST, ix):
+        name, c = ix
+        if c < 0:
+            return None
+        if isinstance(seq, ast.Subscript) and isinstance(seq.slice, ast.Slice) and seq.slice.step is None and seq.slice.upper is None:
+            lo = (None, 0) if seq.slice.lower is None else _idx(seq.slice.lower)
+            if lo is not None and lo[0] is None and lo[1] >= 0:
+                return self.sub(seq.value, (name, c + lo[1]))
+            return None
+        transposed = None
+        if isinstance(seq, ast.Attribute) and seq.attr == "T":
+            transposed = seq.value
+        elif _is_call(seq, "transpose", 0) and isinstance(seq.func, ast.Attribute):
+            transposed = seq.func.value
+        elif _is_call(seq, "transpose", 1):
+            transposed = seq.args[0]
+        if transposed is not None:
+            if dotted(transposed) in _MATRICES:
+                return ast.Subscript(value=transposed, slice=ast.Tuple(elts=[ast.Slice(lower=None, upper=None, step=None), _idx_ast(ix)], ctx=ast.Load()), ctx=ast.Load())
+            return None
+        if isinstance(seq, ast.BinOp) and isinstance(seq.op, ast.Add) and isinstance(seq.left, ast.List) and not any(isinstance(x, ast.Starred) for x in seq.left.elts):
+            seq = ast.List(elts=[*seq.left.elts, ast.Starred(value=seq.right, ctx=ast.Load())], ctx=ast.Load())
+        if isinstance(seq, (ast.List, ast.Tuple)):
+            head = 0
+            while head < len(seq.elts) and not isinstance(seq.elts[head], ast.Starred):
+                head += 1
+            if name is None and c < head:
+                return seq.elts[c]
+            if c >= head and head == len(seq.elts) - 1:  # [a, b, *rest]: element head + i is rest[i]
+                return self.sub(seq.elts[head].value, (name, c - head))
+            return None
+        if isinstance(seq, ast.Call) and isinstance(seq.func, ast.Name) and seq.func.id in ("list", "tuple") and len(seq.args) == 1 and not seq.keywords:
+            return self.sub(seq.args[0], ix)
+        if isinstance(seq, (ast.ListComp, ast.GeneratorExp)) and len(seq.generators) == 1:
+            b = self._binding(seq.generators[0], ix)
+            return None if b is None else self.visit(_subst(seq.elt, b))
+        if self.evaluations and isinstance(seq, ast.Call) and last_attr(seq) == "execute" and isinstance(seq.func, ast.Attribute) and len(seq.args) == 1 and not seq.keywords:
+            # CallableParallelExecution(functions).execute(tasks)[i] is functions[i](tasks[i])
+            return ast.Call(func=ast.Name(id="F", ctx=ast.Load()), args=[self.sub(seq.args[0], ix)], keywords=[])
+        return None
+
+    def visit_Subscript(self, node):  # noqa: N802
+        self.generic_visit(node)
+        if isinstance(node.slice, (ast.Slice, ast.Tuple)):
+            return node
+        ix = _idx(node.slice)
+        if ix is None:
+            return node
+        return self.sub(node.value, ix)
+
+    def visit_Call(self, node):  # noqa: N802
+        self.generic_visit(node)
+        if self.evaluations and dotted(node.func) == "self.f_pointer" and len(node.args) == 1 and not isinstance(node.args[0], ast.Starred):
+            return ast.Call(func=ast.Name(id="F", ctx=ast.Load()), args=[node.args[0]], keywords=[])
+        return node
+
+class _Resolved:
+    """The resolved forms of the expressions of one function."""
+
+    def __init__(self, func: ast.AST, facts: dict | None = None):
+        from gv.astutil import parents_map
+        from gv.dataflow import SymValues
+
+        self.func = specialise(func, facts) if facts else func
+        self.sv = SymValues(self.func, max_len=4000)
+        self.parents = parents_map(self.func)
+
+    def _texts(self, e: ast.AST) -> list[ast.AST]:
+        if self.sv.cfg.has(e):
+            n = self.sv.cfg.node_of(e)
+            if n == self.sv.cfg.entry or self.sv.cfg.reachable(self.sv.cfg.entry, n):
+                return self.sv.exprs(e)
+        return [e]
+
+    def _loop_bindings(self, node: ast.AST) -> dict:
+        """Loop variables in scope at ``node`` that stand for the element ``k`` of a sequence (``enumerate``)."""
+        out: dict = {}
+        child, cur = node, self.parents.get(id(node))
+        r = _Resolver(False)
+        while cur is not None and cur is not self.func:
+            gens = []
+            if isinstance(cur, ast.For) and any(child is s for s in cur.body):
+                gens = [ast.comprehension(target=cur.target, iter=cur.iter, ifs=[], is_async=0)]
+            elif isinstance(cur, (ast.ListComp, ast.GeneratorExp, ast.SetComp)) and child is cur.elt and len(cur.generators) == 1:
+                gens = cur.generators
+            for g in gens:
+                t, it = g.target, g.iter
+                if g.ifs or not (isinstance(t, ast.Tuple) and all(isinstance(x, ast.Name) for x in t.elts) and isinstance(it, ast.Call) and isinstance(it.func, ast.Name)):
+                    continue
+                if len(t.elts) == 2 and _is_call(it, "enumerate"):
+                    pairs = [(t.elts[1].id, it.args[0], t.elts[0].id)]
+                elif _is_call(it, "zip", len(t.elts)):
+                    # the names zipped together are the elements of the same (anonymous) position
+                    pairs = [(x.id, a, "k_" + "_".join(y.id for y in t.elts)) for x, a in zip(t.elts, it.args)]
+                else:
+                    continue
+                for var, seq, k in pairs:
+                    seqs = self._texts(seq)
+                    if len(seqs) == 1 and var not in out:
+                        out[var] = r.sub(r.visit(_subst(seqs[0], {})), (k, 0))
+            child, cur = cur, self.parents.get(id(cur))
+        return out
+
+    def of(self, node: ast.AST, evaluations: bool) -> list[ast.AST]:
+        b = self._loop_bindings(node)
+        out = []
+        for alt in self._texts(node):
+            for _ in range(3):  # a loop variable may stand for an expression of the variables of an outer loop
+                if not (b and names_in(alt) & set(b)):
+                    break
+                alt = _subst(alt, b)
+            out.append(ast.fix_missing_locations(_Resolver(evaluations).visit(_subst(alt, {}))))
+        return out
+
+    def quotients(self) -> list[ast.BinOp]:
+        """The divisions that are not by a constant / of a count."""
+        return [n for n in ast.walk(self.func) if isinstance(n, ast.BinOp) and isinstance(n.op, ast.Div) and not isinstance(n.right, ast.Constant) and not (isinstance(n.left, ast.Call) and dotted(n.left.func) == "len") and self.sv.cfg.has(n)]
+
+
+def _column(e: ast.AST):
+    """k of ``input_perturbations[:, k]`` (None otherwise)."""
+    if isinstance(e, ast.Subscript) and dotted(e.value) in _MATRICES and isinstance(e.slice, ast.Tuple) and len(e.slice.elts) == 2:
+        rows, col = e.slice.elts
+        if isinstance(rows, ast.Slice) and rows.lower is None and rows.upper is None and rows.step is None:
+            ix = _idx(col)
+            return ix if ix and ix[0] and ix[1] == 0 else None
+    return None
+
+
+def _evaluated_at(e: ast.AST):
+    return e.args[0] if isinstance(e, ast.Call) and dotted(e.func) == "F" and len(e.args) == 1 else None
+
+
+def _commuted(e: ast.AST) -> ast.AST:
+    """``a + b`` of two non-literal operands in one order (array addition commutes; list literals are left alone)."""
+
+    class C(ast.NodeTransformer):
+        def visit_BinOp(self, node):  # noqa: N802
+            self.generic_visit(node)
+            seqs = (ast.List, ast.Tuple, ast.ListComp, ast.Constant, ast.JoinedStr)
+            if isinstance(node.op, ast.Add) and not isinstance(node.left, seqs) and not isinstance(node.right, seqs) and _idx(node) is None and unparse(node.left) > unparse(node.right):
+                node.left, node.right = node.right, node.left
+            return node
+
+    return C().visit(_subst(e, {}))
+
+
+def _renamed(e: ast.AST, name: str | None) -> str:
+    return norm_stmt(_commuted(_subst(e, {name: ast.Name(id="K", ctx=ast.Load())}) if name else e), 2000)
+
+
+def _step_index(alts: list[ast.AST]):
+    """k of the denominator ``step[k]``."""
+    if len(alts) == 1 and isinstance(alts[0], ast.Subscript) and dotted(alts[0].value) == "step":
+        ix = _idx(alts[0].slice)
+        if ix and ix[0] and ix[1] == 0:
+            return ix[0]
+    return None
+
+
+STEP_ARRAY = {"step is None": False, "isinstance(step, ndarray)": True}  # the quotient routines make it so first
+
+
+def _half(e: ast.AST):
+    """(array text, "first" | "second", h) of ``a[:h]`` and of ``a[h:2 * h]`` / ``a[h:]``."""
+    if not (isinstance(e, ast.Subscript) and isinstance(e.slice, ast.Slice) and e.slice.step is None):
+        return None
+    lo, up = e.slice.lower, e.slice.upper
+    if (lo is None or const_value(lo, None) == 0) and up is not None:
+        return (norm_stmt(e.value), "first", norm_stmt(up))
+    if lo is not None:
+        h = norm_stmt(lo)
+        # zip() stops with the first half, so an open second half is the same pairing
+        if up is None or norm_stmt(up) in (f"2 * {h}", f"{h} * 2", f"{h} + {h}"):
+            return (norm_stmt(e.value), "second", h)
+    return None
+
+
 def check_twins(ctx: Ctx) -> None:
     # FirstOrderFD
-    s = ctx.index.method(FD, "FirstOrderFD", "_compute_grad")
-    p = ctx.index.method(FD, "FirstOrderFD", "_compute_parallel_grad")
-    qs, qp = [x for x in stmts_of(s) if isinstance(x, ast.Assign) and _quotient_shape(x.value)[0] is not None], [x for x in stmts_of(p) if isinstance(x, ast.Assign) and _quotient_shape(x.value)[0] is not None]
-    ctx.need(len(qs) == 1 and len(qp) == 1, "FirstOrderFD: difference quotients not found")
-    ok = norm_stmt(qs[0].value) == norm_stmt(qp[0].value)
-    ctx.ob("16.2-twin", cname(FD, "FirstOrderFD", "_compute_parallel_grad"), ok, f"the parallel variant computes `{norm_stmt(qp[0].value, 80)}` while the serial one computes `{norm_stmt(qs[0].value, 80)}`", node=qp[0])
-    for f, con in ((s, cname(FD, "FirstOrderFD", "_compute_grad")), (p, cname(FD, "FirstOrderFD", "_compute_parallel_grad"))):
-        q = [x for x in stmts_of(f) if isinstance(x, ast.Assign) and _quotient_shape(x.value)[0] is not None][0]
-        num, den = _quotient_shape(q.value)
-        ok = isinstance(num, ast.BinOp) and isinstance(num.op, ast.Sub) and dotted(num.left) == "perturbated_output" and dotted(num.right) == "initial_output" and isinstance(den, ast.Subscript) and dotted(den.value) == "step"
-        ctx.ob("16.2-quotient", con, ok, "forward difference: (f(x + h e_k) - f(x)) / h_k", node=q)
-        idx = dotted(den.slice) if isinstance(den, ast.Subscript) else None
+    res = {}
+    for meth in ("_compute_grad", "_compute_parallel_grad"):
+        con = cname(FD, "FirstOrderFD", meth)
+        R = _Resolved(ctx.index.method(FD, "FirstOrderFD", meth), STEP_ARRAY)
+        qs = R.quotients()
+        ctx.need(len(qs) == 1, f"FirstOrderFD.{meth}: difference quotient not found")
+        q = qs[0]
+        den = R.of(q.right, False)
+        k = _step_index(den)
+        nums = R.of(q.left, True)
+        num = nums[0] if len(nums) == 1 else None
+        plus = minus = None
+        if isinstance(num, ast.BinOp) and isinstance(num.op, ast.Sub):
+            plus, minus = _evaluated_at(num.left), _evaluated_at(num.right)
+        col = _column(plus) if plus is not None else None
+        ok = col is not None and dotted(minus) == "input_values" and len(den) == 1 and isinstance(den[0], ast.Subscript) and dotted(den[0].value) == "step"
+        ctx.ob("16.2-quotient", con, ok, f"forward difference: (f(x + h e_k) - f(x)) / h_k; found `{norm_stmt(num, 120)}` / `{norm_stmt(den[0] if den else None, 40)}` (outputs resolved to the points they are evaluated at)", node=q)
         # the perturbed output belongs to the same perturbation index as the step
-        pd = [x for x in stmts_of(f) if isinstance(x, ast.Assign) and dotted(x.targets[0]) == "perturbated_output"]
-        ok = len(pd) == 1 and idx in names_in(pd[0].value)
-        ctx.ob("16.2-pairing", con, ok, "the perturbed output and the step must belong to the same perturbation", node=(pd or [q])[0])
+        ok = col is not None and k is not None and col == (k, 0)
+        ctx.ob("16.2-pairing", con, ok, "the perturbed output and the step must belong to the same perturbation", node=q)
+        res[meth] = (R, q, _renamed(num, k) + " / " + "; ".join(_renamed(d, k) for d in den) if num is not None else None, k)
+    (Rs, qs_, ts, _), (Rp, qp_, tp, kp) = res["_compute_grad"], res["_compute_parallel_grad"]
+    ctx.ob("16.2-twin", cname(FD, "FirstOrderFD", "_compute_parallel_grad"), ts is not None and ts == tp, f"the parallel variant computes `{norm_stmt(qp_, 80)}` (resolved: `{(tp or '?')[:160]}`) while the serial one computes `{norm_stmt(qs_, 80)}` (resolved: `{(ts or '?')[:160]}`)", node=qp_)
     # parallel: outputs[k + 1] pairs with perturbation k (output 0 is the unperturbed point)
-    pd = [x for x in stmts_of(p) if isinstance(x, ast.Assign) and dotted(x.targets[0]) == "perturbated_output"][0]
-    sl = pd.value.slice if isinstance(pd.value, ast.Subscript) else None
-    ok = isinstance(sl, ast.BinOp) and isinstance(sl.op, ast.Add) and getattr(sl.right, "value", None) == 1 and isinstance(sl.left, ast.Name)
-    ctx.ob("16.2-pairing", cname(FD, "FirstOrderFD", "_compute_parallel_grad"), ok, "in the parallel variant the outputs are [f(x), f(x+h e_0), ...]: perturbation k is output k + 1", node=pd)
-    ex = [c for c in walk_body(p) if isinstance(c, ast.Call) and last_attr(c) == "execute"]
-    ok = len(ex) == 1 and isinstance(ex[0].args[0], ast.List) and dotted(ex[0].args[0].elts[0]) == "input_values" and isinstance(ex[0].args[0].elts[1], ast.Starred)
-    ctx.ob("16.2-pairing", cname(FD, "FirstOrderFD", "_compute_parallel_grad"), ok, "the tasks must be [x, *perturbed points], in this order", node=(ex or [p])[0], stmt="tasks = [x, *perturbed]")
-    io = [x for x in stmts_of(p) if isinstance(x, ast.Assign) and dotted(x.targets[0]) == "initial_output"]
-    ok = len(io) == 1 and isinstance(io[0].value, ast.Subscript) and getattr(io[0].value.slice, "value", None) == 0
-    ctx.ob("16.2-pairing", cname(FD, "FirstOrderFD", "_compute_parallel_grad"), ok, "the unperturbed output is output 0", node=(io or [p])[0])
+    con = cname(FD, "FirstOrderFD", "_compute_parallel_grad")
+    p = Rp.func
+    nums = Rp.of(qp_.left, False)
+    num = nums[0] if len(nums) == 1 and isinstance(nums[0], ast.BinOp) and isinstance(nums[0].op, ast.Sub) else None
+
+    def output(e):
+        return _idx(e.slice) if isinstance(e, ast.Subscript) and isinstance(e.value, ast.Call) and last_attr(e.value) == "execute" and not isinstance(e.slice, (ast.Slice, ast.Tuple)) else None
+
+    ok = num is not None and kp is not None and output(num.left) == (kp, 1)
+    ctx.ob("16.2-pairing", con, ok, "in the parallel variant the outputs are [f(x), f(x+h e_0), ...]: perturbation k is output k + 1", node=qp_, stmt="perturbation k is output k + 1")
+    ex = [c for c in walk_body(p) if isinstance(c, ast.Call) and last_attr(c) == "execute" and isinstance(c.func, ast.Attribute)]
+    ok = len(ex) == 1 and len(ex[0].args) == 1
+    if ok:
+        tasks = Rp.of(ex[0].args[0], False)
+        r = _Resolver(False)
+        ok = len(tasks) == 1 and dotted(r.sub(tasks[0], (None, 0))) == "input_values" and _column(r.sub(_subst(tasks[0], {}), ("j_", 1))) == ("j_", 0)
+    ctx.ob("16.2-pairing", con, ok, "the tasks must be [x, *perturbed points], in this order", node=(ex or [p])[0], stmt="tasks = [x, *perturbed]")
+    ok = num is not None and output(num.right) == (None, 0)
+    ctx.ob("16.2-pairing", con, ok, "the unperturbed output is output 0", node=qp_, stmt="the unperturbed output is output 0")
     # ComplexStep
-    s = ctx.index.method(CS, "ComplexStep", "_compute_grad")
-    p = ctx.index.method(CS, "ComplexStep", "_compute_parallel_grad")
-    qs_, qp_ = _quotient_shape(s), _quotient_shape(p)
-    ctx.need(qs_[0] is not None and qp_[0] is not None, "ComplexStep: quotients not found")
-    ok = norm_stmt(qs_[1]) == norm_stmt(qp_[1]) and isinstance(qs_[0], ast.Attribute) and qs_[0].attr == "imag" and isinstance(qp_[0], ast.Attribute) and qp_[0].attr == "imag"
-    ctx.ob("16.2-twin", cname(CS, "ComplexStep", "_compute_parallel_grad"), ok, f"serial and parallel complex-step quotients differ: imag(f)/`{norm_stmt(qs_[1], 60)}` vs imag(f)/`{norm_stmt(qp_[1], 60)}`", node=qp_[1])
-    for f, con in ((s, cname(CS, "ComplexStep", "_compute_grad")), (p, cname(CS, "ComplexStep", "_compute_parallel_grad"))):
-        adds = [n for n in walk_body(f) if isinstance(n, ast.BinOp) and isinstance(n.op, ast.Add) and dotted(n.left) == "input_values" and isinstance(n.right, ast.Subscript) and dotted(n.right.value) == "input_perturbations"]
-        ok = len(adds) == 1 and isinstance(adds[0].right.slice, ast.Tuple) and isinstance(adds[0].right.slice.elts[0], ast.Slice) and isinstance(adds[0].right.slice.elts[1], ast.Name)
-        ctx.ob("16.2-quotient", con, ok, "complex step: the function is evaluated at x + i h_k e_k (column k of the perturbations)", node=(adds or [f])[0])
-    # CenteredDifferences
-    s = ctx.index.method(CD, "CenteredDifferences", "_compute_grad")
-    p = ctx.index.method(CD, "CenteredDifferences", "_compute_parallel_grad")
-    for f, con, names in ((s, cname(CD, "CenteredDifferences", "_compute_grad"), ("f(input_plus, **kwargs)", "f(input_minus, **kwargs)")), (p, cname(CD, "CenteredDifferences", "_compute_parallel_grad"), ("output_plus", "output_minus"))):
-        num, den = _quotient_shape(f)
-        ok = num is not None and isinstance(num, ast.BinOp) and isinstance(num.op, ast.Sub) and (norm_stmt(num.left), norm_stmt(num.right)) == names and norm_stmt(den) == "norm(input_plus - input_minus)"
-        ctx.ob("16.2-quotient", con, ok, "centred difference: (f(x+) - f(x-)) / ||x+ - x-||", node=num if num is not None else f)
-        zips = [c for c in walk_body(f) if isinstance(c, ast.Call) and dotted(c.func) == "zip"]
-        ok = len(zips) == 1
+    res = {}
+    for meth in ("_compute_grad", "_compute_parallel_grad"):
+        con = cname(CS, "ComplexStep", meth)
+        R = _Resolved(ctx.index.method(CS, "ComplexStep", meth))
+        qs = R.quotients()
+        ctx.need(len(qs) == 1, f"ComplexStep.{meth}: quotient not found")
+        q = qs[0]
+        den = R.of(q.right, False)
+        k = _step_index(den)
+        nums = R.of(q.left, True)
+        num = nums[0] if len(nums) == 1 else None
+        point = _evaluated_at(num.value) if isinstance(num, ast.Attribute) and num.attr == "imag" else None
+        ok = isinstance(point, ast.BinOp) and isinstance(point.op, ast.Add)
         if ok:
-            halves = [norm_stmt(a.slice) for a in zips[0].args if isinstance(a, ast.Subscript)]
-            ok = len(halves) == len(zips[0].args) and all(h in (":n_perturbations_", "n_perturbations_:2 * n_perturbations_") for h in halves)
-            plus = [dotted(a.value) for a in zips[0].args if norm_stmt(a.slice) == ":n_perturbations_"]
-            minus = [dotted(a.value) for a in zips[0].args if norm_stmt(a.slice) != ":n_perturbations_"]
-            ok = ok and sorted(plus) == sorted(minus)
-        ctx.ob("16.2-pairing", con, ok, "the first half of the perturbations (x+) must be paired with the second half (x-), inputs and outputs alike", node=(zips or [f])[0])
+            cols = [c for c in (_column(point.left), _column(point.right)) if c is not None]
+            ok = len(cols) == 1 and "input_values" in (dotted(point.left), dotted(point.right)) and (k is None or cols[0] == (k, 0))
+        ctx.ob("16.2-quotient", con, ok, f"complex step: the function is evaluated at x + i h_k e_k (column k of the perturbations); found `{norm_stmt(num, 120)}`", node=q)
+        ctx.ob("16.2-pairing", con, bool(ok) and k is not None, "the perturbed output and the step must belong to the same perturbation: Im f(x + i h_k e_k) / h_k", node=q)
+        res[meth] = (q, num, den, k)
+    (qs_, ns, ds, ks), (qp_, np_, dp, kp) = res["_compute_grad"], res["_compute_parallel_grad"]
+    ok = ns is not None and np_ is not None and isinstance(ns, ast.Attribute) and ns.attr == "imag" and isinstance(np_, ast.Attribute) and np_.attr == "imag"
+    ok = ok and [_renamed(d, ks) for d in ds] == [_renamed(d, kp) for d in dp] and _renamed(ns, ks) == _renamed(np_, kp)
+    ctx.ob("16.2-twin", cname(CS, "ComplexStep", "_compute_parallel_grad"), ok, f"serial and parallel complex-step quotients differ: `{norm_stmt(ns, 80)}`/`{norm_stmt(qs_.right, 60)}` vs `{norm_stmt(np_, 80)}`/`{norm_stmt(qp_.right, 60)}`", node=qp_.right)
+    # CenteredDifferences
+    from gv.dataflow import SymValues
+
+    for meth in ("_compute_grad", "_compute_parallel_grad"):
+        f = ctx.index.method(CD, "CenteredDifferences", meth)
+        con = cname(CD, "CenteredDifferences", meth)
+        zips = [c for c in ast.walk(f) if isinstance(c, ast.Call) and dotted(c.func) == "zip"]
+        halves: dict[str, tuple] = {}
+        ok_pairs = len(zips) == 1
+        if ok_pairs:
+            # the loop / comprehension over the zip binds one name per zipped half
+            owner = [g for n_ in ast.walk(f) for g in (n_.generators if isinstance(n_, (ast.ListComp, ast.GeneratorExp)) else [n_] if isinstance(n_, ast.For) else []) if g.iter is zips[0]]
+            hs = [_half(a) for a in zips[0].args]
+            ok_pairs = len(owner) == 1 and isinstance(owner[0].target, ast.Tuple) and len(owner[0].target.elts) == len(hs) and all(isinstance(t, ast.Name) for t in owner[0].target.elts) and all(hs) and len({h[2] for h in hs}) == 1
+            if ok_pairs:
+                halves = {t.id: h for t, h in zip(owner[0].target.elts, hs)}
+                arrays = {h[0] for h in hs}
+                ok_pairs = all(sorted(h[1] for h in hs if h[0] == a) == ["first", "second"] for a in arrays)
+        num, den = _quotient_shape(f)
+        sv = SymValues(f)
+
+        def point(e):
+            """The zipped name whose point an output belongs to: f(name) or the output zipped with it."""
+            if isinstance(e, ast.Call) and len(e.args) == 1 and sv.cfg.has(e.func) and sv.texts(e.func) == ["self.f_pointer"]:
+                return dotted(e.args[0])
+            if isinstance(e, ast.Name) and e.id in halves and halves[e.id][0] != "input_perturbations":
+                same = [n_ for n_, h in halves.items() if h[0] == "input_perturbations" and h[1] == halves[e.id][1]]
+                return same[0] if len(same) == 1 else None
+            return None
+
+        ok = ok_pairs and isinstance(num, ast.BinOp) and isinstance(num.op, ast.Sub) and isinstance(den, ast.Call) and dotted(den.func) == "norm" and len(den.args) == 1 and isinstance(den.args[0], ast.BinOp) and isinstance(den.args[0].op, ast.Sub)
+        if ok:
+            xp, xm = point(num.left), point(num.right)
+            ok = xp in halves and xm in halves and halves[xp][:2] == ("input_perturbations", "first") and halves[xm][:2] == ("input_perturbations", "second") and {dotted(den.args[0].left), dotted(den.args[0].right)} == {xp, xm}
+        ctx.ob("16.2-quotient", con, ok, "centred difference: (f(x+) - f(x-)) / ||x+ - x-||", node=num if num is not None else f)
+        ctx.ob("16.2-pairing", con, ok_pairs, "the first half of the perturbations (x+) must be paired with the second half (x-), inputs and outputs alike", node=(zips or [f])[0])
 
 
 def check_placement(ctx: Ctx) -> None:
     f = ctx.index.method(DA, "DisciplineJacApprox", "compute_approx_jac")
     con = cname(DA, "DisciplineJacApprox", "compute_approx_jac")
     st = [s for s in stmts_of(f) if isinstance(s, ast.Assign) and isinstance(s.targets[0], ast.Subscript) and dotted(s.targets[0].value) == "flat_jac_complete"]
-    ok = len(st) == 1 and isinstance(st[0].targets[0].slice, ast.Tuple) and isinstance(st[0].targets[0].slice.elts[0], ast.Slice) and dotted(st[0].targets[0].slice.elts[1]) == "x_indices" and dotted(st[0].value) == "flat_jac"
+    # all the rows: `:` or, the array being 2-D (next rule), `...`
+    ok = len(st) == 1 and isinstance(st[0].targets[0].slice, ast.Tuple) and len(st[0].targets[0].slice.elts) == 2 and (isinstance(st[0].targets[0].slice.elts[0], ast.Slice) or const_value(st[0].targets[0].slice.elts[0], None) is Ellipsis) and dotted(st[0].targets[0].slice.elts[1]) == "x_indices" and dotted(st[0].value) == "flat_jac"
     ctx.ob("16.3-placement", con, ok, "the partial Jacobian must fill the columns of the differentiated components: flat_jac_complete[:, x_indices] = flat_jac", node=(st or [f])[0])
     z = [s for s in stmts_of(f) if isinstance(s, ast.Assign) and dotted(s.targets[0]) == "flat_jac_complete" and isinstance(s.value, ast.Call) and last_attr(s.value) == "zeros"]
-    ok = len(z) == 1 and isinstance(z[0].value.args[0], (ast.List, ast.Tuple)) and len(z[0].value.args[0].elts) == 2 and "data_names_to_sizes" in unparse(z[0].value.args[0].elts[0]) and "input_names_to_sizes" in unparse(z[0].value.args[0].elts[1])
+    ok = len(z) == 1
+    if ok:
+        shape = z[0].value.args[0] if z[0].value.args else kwarg(z[0].value, "shape")
+        ok = isinstance(shape, (ast.List, ast.Tuple)) and len(shape.elts) == 2
+    if ok:
+        # rows: the outputs (their sizes summed, or the rows of the partial Jacobian that is placed); columns: the
+        # inputs (their sizes summed, or the length of the vector that is differentiated)
+        grads = [c for c in walk_body(f) if isinstance(c, ast.Call) and last_attr(c) == "f_gradient" and c.args]
+        x = dotted(grads[0].args[0]) if len(grads) == 1 else None
+        placed = dotted(st[0].value) if len(st) == 1 else None
+        rows, cols = (norm_stmt(e) for e in shape.elts)
+        ok = ("data_names_to_sizes" in rows or (placed is not None and rows in (f"{placed}.shape[0]", f"len({placed})"))) and ("input_names_to_sizes" in cols or (x is not None and cols in (f"{x}.size", f"len({x})", f"{x}.shape[0]")))
     ctx.ob("16.3-placement", con, ok, "the complete Jacobian is (sum of output sizes) x (sum of input sizes), zero outside the differentiated columns", node=(z or [f])[0])
     cfg = cfg_of(f)
     if st:
@@ -217,18 +546,31 @@ def check_placement(ctx: Ctx) -> None:
     gen = [c for c in walk_body(g) if isinstance(c, ast.Call) and last_attr(c) == "generate_perturbations"]
     ok = len(gen) == 1 and dotted(kwarg(gen[0], "x_indices")) == "x_indices" and dotted(kwarg(gen[0], "step")) == "step"
     ctx.ob("16.3-placement", cname(BA, "BaseGradientApproximator", "f_gradient"), ok, "f_gradient forwards the component subset and the step to the perturbation generator", node=(gen or [g])[0])
-    comp = [c for c in walk_body(g) if isinstance(c, ast.Call) and dotted(c.func) == "compute"]
-    ok = len(comp) == 1 and gen
+    from gv.dataflow import SymValues
+
+    svg = SymValues(g)
+    comp = [c for c in walk_body(g) if isinstance(c, ast.Call) and svg.cfg.has(c) and any("_compute_grad" in t_ or "_compute_parallel_grad" in t_ for t_ in svg.texts(c.func))]
+    ok = bool(comp) and gen  # one call, or one per branch of `if self._parallel`
     if ok:
         unp = [s for s in stmts_of(g) if isinstance(s, ast.Assign) and s.value is gen[0]]
-        ok = len(unp) == 1 and isinstance(unp[0].targets[0], ast.Tuple) and [dotted(a) for a in comp[0].args[:3]] == [g.args.args[1].arg, *[dotted(e) for e in unp[0].targets[0].elts]]
+        ok = len(unp) == 1 and isinstance(unp[0].targets[0], ast.Tuple) and all([dotted(a) for a in c_.args[:3]] == [g.args.args[1].arg, *[dotted(e) for e in unp[0].targets[0].elts]] for c_ in comp)
     ctx.ob("16.3-placement", cname(BA, "BaseGradientApproximator", "f_gradient"), bool(ok), "the quotient routine receives x, the perturbations and the steps returned by the generator", node=(comp or [g])[0])
-    sel = [s for s in stmts_of(g) if isinstance(s, ast.Assign) and dotted(s.targets[0]) == "compute"]
-    ok = len(sel) == 1 and isinstance(sel[0].value, ast.IfExp) and norm_stmt(sel[0].value.test) == "self._parallel" and norm_stmt(sel[0].value.body).endswith("_compute_parallel_grad") and norm_stmt(sel[0].value.orelse).endswith("_compute_grad")
-    ctx.ob("16.2-twin", cname(BA, "BaseGradientApproximator", "f_gradient"), ok, "the parallel routine is used iff parallel execution is requested", node=(sel or [g])[0])
+    # the routine that is CALLED, unfolded under each value of the option (conditional expression, if statement, ...)
+    ok = bool(comp)
+    for fact, want in ((True, "self._compute_parallel_grad"), (False, "self._compute_grad")):
+        called = []  # what the calls that run under this value of the option call
+        for c0 in comp:
+            loc = (c0.lineno, c0.col_offset, c0.end_lineno, c0.end_col_offset)
+            alts = unfolded(g, rules.enclosing_stmt(g, c0), {"self._parallel": fact}, get=lambda st_: next((n_.func for n_ in ast.walk(st_) if isinstance(n_, ast.Call) and (n_.lineno, n_.col_offset, n_.end_lineno, n_.end_col_offset) == loc), None))
+            if alts is not None:
+                called.append([norm_stmt(a_) for a_ in alts])
+        ok = ok and called == [[want]]
+    ctx.ob("16.2-twin", cname(BA, "BaseGradientApproximator", "f_gradient"), bool(ok), "the parallel routine is used iff parallel execution is requested", node=(comp or [g])[0], stmt="compute = parallel routine iff self._parallel")
     h = ctx.index.method(BA, "BaseGradientApproximator", "generate_perturbations")
     dflt = [s for s in stmts_of(h) if isinstance(s, ast.Assign) and dotted(s.targets[0]) == "x_indices"]
-    ok = len(dflt) == 1 and norm_stmt(dflt[0].value) == f"range({h.args.args[1].arg})"
+    n_, x_ = h.args.args[1].arg, h.args.args[2].arg  # the dimension and the vector it is the length of
+    full_ranges = {f"{fn}({d})" for fn in ("range", "arange") for d in (n_, f"len({x_})", f"{x_}.size", f"{x_}.shape[0]")}
+    ok = len(dflt) == 1 and (norm_stmt(dflt[0].value) in full_ranges or any(norm_stmt(dflt[0].value) == f"list({r_})" for r_ in full_ranges))
     ctx.ob("16.3-placement", cname(BA, "BaseGradientApproximator", "generate_perturbations"), ok, "without a subset all the components are differentiated, in order", node=(dflt or [h])[0])
 
 
@@ -258,6 +600,11 @@ def _exceeds(func: ast.AST, test: ast.AST, bound: str, sign: int) -> bool | None
         if isinstance(e, ast.Subscript):
             return term(e.value, depth)
         if isinstance(e, ast.Name):
+            # a local holding the bounds, whatever its name: every definition of it reads the getter (possibly
+            # through a re-assignment of itself: `b = normalize_vect(b)`)
+            got = {g_ for d_ in defs.get(e.id, ()) for g_ in ("upper_bounds", "lower_bounds") if any(isinstance(c_, ast.Call) and last_attr(c_) == "get_" + g_ for c_ in ast.walk(d_))}
+            if len(got) == 1 and e.id not in ("step", "lower_bounds", "upper_bounds") and all(any(isinstance(c_, ast.Call) and last_attr(c_) == "get_" + next(iter(got)) for c_ in ast.walk(d_)) or e.id in names_in(d_) for d_ in defs[e.id]):
+                return sp.Symbol(next(iter(got)), real=True)
             if e.id not in ("step", bound, "lower_bounds", "upper_bounds") and len(defs.get(e.id, ())) == 1 and depth < 3 and isinstance(defs[e.id][0], (ast.BinOp, ast.Subscript, ast.Name)):
                 return term(defs[e.id][0], depth + 1)
             return sp.Symbol("x" if e.id in ("input_perturbations", "input_values") else e.id, real=True)
@@ -492,7 +839,7 @@ WITNESSES = [
     {"name": "centered-bounds-of-all-components", "file": CD, "old": "            < lower_bounds[input_indices],", "new": "            < lower_bounds,", "expect": "16."},
     {"name": "complex-step-diagonal-index", "file": CS, "old": "            gradient.append(perturbated_output.imag / step[perturbation_index])", "new": "            gradient.append(\n                perturbated_output.imag\n                / input_perturbations[perturbation_index, perturbation_index].imag\n            )", "expect": "16."},
     {"name": "complex-step-steps-not-restricted", "file": CS, "old": "        if isinstance(step, ndarray):\n            # One step per input component: keep the ones of the differentiated ones.\n            step = step[input_indices]\n\n        # One step per perturbation.", "new": "        # One step per perturbation.", "expect": "16.1"},
-    {"name": "fd-bounds-not-restricted", "file": FD, "old": "            >= upper_bounds[input_indices],", "new": "            >= upper_bounds,", "expect": "16.1"},
+    {"name": "fd-bounds-not-restricted", "file": FD, "old": "            > upper_bounds[input_indices],", "new": "            > upper_bounds,", "expect": "16.1"},
     {"name": "fd-steps-not-restricted", "file": FD, "old": "        if isinstance(step, ndarray):\n            # One step per input component: keep the ones of the differentiated ones.\n            step = step[input_indices]\n\n        if self._design_space is None:", "new": "        if self._design_space is None:", "expect": "16.1"},
     {"name": "fd-perturbs-rows-by-perturbation-index", "file": FD, "old": "            input_perturbations[input_indices, range(n_indices)] += step\n            return input_perturbations, step", "new": "            input_perturbations[range(n_indices), range(n_indices)] += step\n            return input_perturbations, step", "expect": "16.1"},
     {"name": "fd-perturbation-array-transposed", "file": FD, "old": "            tile(input_values, n_indices).reshape((n_indices, input_dimension)).T\n", "new": "            tile(input_values, n_indices).reshape((n_indices, input_dimension))\n", "expect": "16.1"},
@@ -505,7 +852,7 @@ WITNESSES = [
     {"name": "partial-jacobian-in-rows", "file": DA, "old": "            flat_jac_complete[:, x_indices] = flat_jac", "new": "            flat_jac_complete[x_indices, :] = flat_jac", "expect": "16.3"},
     {"name": "subset-not-forwarded", "file": DA, "old": "                self.approximator.f_gradient(x_vect, x_indices=x_indices, step=step)", "new": "                self.approximator.f_gradient(x_vect, step=step)", "expect": "16.3"},
     {"name": "parallel-flag-inverted", "file": BA, "old": "        compute = self._compute_parallel_grad if self._parallel else self._compute_grad", "new": "        compute = self._compute_grad if self._parallel else self._compute_parallel_grad", "expect": "16.2"},
-    {"name": "flip-at-lower-bound", "file": FD, "old": "            >= upper_bounds[input_indices],\n            -step,\n            step,", "new": "            >= upper_bounds[input_indices],\n            step,\n            -step,", "expect": "16.4"},
+    {"name": "flip-at-lower-bound", "file": FD, "old": "            > upper_bounds[input_indices],\n            -step,\n            step,", "new": "            > upper_bounds[input_indices],\n            step,\n            -step,", "expect": "16.4"},
     {"name": "bounds-never-normalised", "file": FD, "old": "        if self._normalize:\n            upper_bounds = self._design_space.normalize_vect(\n                self._design_space.get_upper_bounds()\n            )\n        else:\n            upper_bounds = self._design_space.get_upper_bounds()", "new": "        upper_bounds = self._design_space.get_upper_bounds()", "expect": "16.4"},
     {"name": "unflipped-steps-returned", "file": FD, "old": "        return input_perturbations, steps", "new": "        return input_perturbations, step", "expect": "16.4"},
 ]
@@ -513,5 +860,5 @@ TWINS = [
     {"name": "flip-test-mirrored", "file": FD, "old": "            input_perturbations[input_indices, range(n_indices)] + step\n            > upper_bounds[input_indices],\n            -step,\n            step,", "new": "            upper_bounds[input_indices] - step\n            < input_perturbations[input_indices, range(n_indices)],\n            -step,\n            step,"},
     {"name": "flip-branches-swapped", "file": FD, "old": "            input_perturbations[input_indices, range(n_indices)] + step\n            > upper_bounds[input_indices],\n            -step,\n            step,", "new": "            input_perturbations[input_indices, range(n_indices)] + step\n            <= upper_bounds[input_indices],\n            step,\n            -step,"},
     {"name": "rename-perturbation-index", "file": CS, "old": "perturbation_index", "new": "k", "count": 0},
-    {"name": "flip-mirrored-comparison", "file": FD, "old": "            input_perturbations[input_indices, range(n_indices)]\n            >= upper_bounds[input_indices],", "new": "            upper_bounds[input_indices]\n            <= input_perturbations[input_indices, range(n_indices)],"},
+    {"name": "flip-mirrored-comparison", "file": FD, "old": "            input_perturbations[input_indices, range(n_indices)] + step\n            > upper_bounds[input_indices],", "new": "            upper_bounds[input_indices]\n            < input_perturbations[input_indices, range(n_indices)] + step,"},
 ]
